@@ -17,7 +17,7 @@ mod run;
 
 pub const OP_NAMES: &[&str] = &[
     "TickClient", "TickServer", "Deliver", "Drop", "DeliverAll", "Submit", "Broadcast", "Recv", "Disconnect", "NewClient", "Mutate", "Replay",
-    "SockErr", "CrashClient", "Rejoin",
+    "SockErr", "CrashClient", "Rejoin", "SpoofPort",
 ];
 pub const K_TICKCLIENT: u8 = 0;
 pub const K_TICKSERVER: u8 = 1;
@@ -34,6 +34,7 @@ pub const K_REPLAY: u8 = 11;
 pub const K_SOCKERR: u8 = 12;
 pub const K_CRASH: u8 = 13;
 pub const K_REJOIN: u8 = 14;
+pub const K_SPOOFPORT: u8 = 15;
 
 pub const T0_SECS: u64 = 500;
 
@@ -115,6 +116,8 @@ pub struct Slot {
     pub newest_handed: u64,
     /// a fresh session datagram of this client sits unread in the server's socket
     pub fresh_waiting: bool,
+    /// client clock when a datagram carrying the server's address as source was last handed to this client's socket
+    pub last_from_server_ms: u64,
 }
 
 pub struct WorldC {
@@ -221,6 +224,7 @@ impl WorldC {
                 emitted_n: 0,
                 newest_handed: 0,
                 fresh_waiting: false,
+                last_from_server_ms: 0,
             })
             .collect();
         let mut w = WorldC {
@@ -312,6 +316,7 @@ impl WorldC {
         s.emitted_n = 0;
         s.newest_handed = 0;
         s.fresh_waiting = false;
+        s.last_from_server_ms = s.clock_ms;
     }
 
     pub fn slot_of_addr(&self, a: SocketAddr) -> Option<usize> {
@@ -357,6 +362,7 @@ pub fn gen_cfg(family: &str, rng: &mut Rng) -> Cfg {
     cfg.set("warm", *rng.pick(&[0u64, 6, 6]));
     cfg.set("local", *rng.pick(&[0u64, 0, 1]));
     cfg.set("unsecure", *rng.pick(&[0u64, 0, 0, 1]));
+    cfg.set("spoof", *rng.pick(&[0u64, 0, 0, 0, 1]));
     let _ = BTreeSet::<u8>::new();
     cfg
 }
